@@ -297,10 +297,12 @@ def run_case(a):
                 for c in regs:
                     p = os.path.join(dd, "d%d" % c["id"])
                     data = open(p, "rb").read() if os.path.exists(p) else b"\0missing"
-                    line["dump"].append({"id": c["id"], "how": "dump", "size": len(data), "digest": G.sha(data)})
+                    stp = os.lstat(p) if os.path.exists(p) else None
+                    line["dump"].append({"id": c["id"], "how": "dump", "size": len(data), "digest": G.sha(data),
+                                         "perm": stat.S_IMODE(stp.st_mode) & 0o777 if stp else -1, "uid": stp.st_uid if stp else -1, "gid": stp.st_gid if stp else -1})
                 for c in regs[:3]:
                     rc, out, e4 = sh([dfs, "-R", "cat %s" % c["path"], img], env=env, timeout=300)
-                    line["dump"].append({"id": c["id"], "how": "cat", "size": len(out), "digest": G.sha(out)})
+                    line["dump"].append({"id": c["id"], "how": "cat", "size": len(out), "digest": G.sha(out), "perm": -1, "uid": -1, "gid": -1})
             G.cleanup(out_dir)
     except Exception as ex:       # the case could not be observed: broken check, never a violation
         info["fatal"] = "%s: %s" % (type(ex).__name__, ex)
@@ -433,6 +435,7 @@ def canaries(lines, cat):
         add("RdTargets", l, mut(lambda n: n["kind"] == "lnk", "target", lambda v: v + "y", where="rdump"))
         add("RdNames", l, lambda c: (c["rdump"].pop() and None) if c["rdump"] else False)
         add("DumpCat", l, lambda c: c["dump"][0].__setitem__("digest", "sha256:0") if c["dump"] else False)
+        add("DumpPerms", l, lambda c: c["dump"][0].__setitem__("uid", c["dump"][0]["uid"] + 1) if c["dump"] else False)
     return out
 
 
@@ -476,6 +479,11 @@ def stale_mounts():
 
 # ------------------------------------------------------------------------------------------------------------ entry points
 def run(tier):
+    import signal
+    try:
+        signal.signal(signal.SIGTERM, lambda *a: sys.exit(143))        # so that the finally clause unmounts and removes the work directory
+    except ValueError:
+        pass
     ev = Evidence(PID, tier, "model_checking")
     vd = Verdict(PID, ev)
     load_known(vd)
@@ -496,7 +504,7 @@ def run(tier):
         #   A  what every profile stores          -> profiles without ea_inode and with blocks < 4 KiB
         #   B  A + the large xattr value class    -> profile ea_inode
         #   C  everything                         -> the 4 KiB profile, and one 1 KiB profile (there most trees of C are refused, as modelled)
-        nA, nB, nC, nW = (32, 8, 8, 2) if tier == "quick" else (300, 80, 80, 24)
+        nA, nB, nC, nW = (32, 8, 8, 2) if tier == "quick" else (200, 60, 60, 12)
         profiles = QUICK_PROFILES if tier == "quick" else list(PROFILES)
         profA = [p for p in profiles if not PROFILES[p].get("ea_inode") and PROFILES[p]["bs"] < 4096]
         small = dict(TargetClasses='{"t1", "t59", "t60", "t61", "t255", "t1023"}')
@@ -590,7 +598,16 @@ def run(tier):
         # confirmation: re-run each rejected case from scratch and let TLC decide again
         confirmed = {}
         if bad:
-            order = sorted(bad)
+            # violations are reported once per (front end, profile, clause): three rejected cases of each are re-run, the rest adds nothing
+            per_key, order = {}, []
+            for k in sorted(bad):
+                ks = [(lines[k]["frontend"], lines[k]["profile"], c) for c in bad[k]]
+                if any(per_key.get(x, 0) < 3 for x in ks):
+                    order.append(k)
+                    for x in ks:
+                        per_key[x] = per_key.get(x, 0) + 1
+            ev.cov["rejected_cases"] = len(bad)
+            ev.cov["rejected_cases_rerun"] = len(order)
             with cf.ProcessPoolExecutor(max_workers=JOBS) as ex:
                 again = list(ex.map(run_case, [cases[k][:7] + (os.path.join(work, "again"), probe, True) for k in order]))
             l2 = [a[0] for a in again]; i2 = [a[1] for a in again]
